@@ -3,10 +3,10 @@
 // the source files the property is anchored in, pinned whole (test modules, comments and layout apart): a change to anything in
 // them that is neither under contract nor pinned by name still makes this unit undecided, which sends the check to the
 // property's bounded sweep of the real code
-//@pinfile file=cfgrammar/src/lib/yacc/grammar.rs sha=3ccc24d5c8f4f7f7
+//@pinfile file=cfgrammar/src/lib/yacc/grammar.rs sha=b2daa9fc80630f0d
 //@pinfile file=cfgrammar/src/lib/yacc/ast.rs sha=b152c25de197a916
 //@pinfile file=lrtable/src/lib/pager.rs sha=2691abd40282da88
-//@pinfile file=lrtable/src/lib/itemset.rs sha=6bd031e6e90f8d6a
+//@pinfile file=lrtable/src/lib/itemset.rs sha=776d693e72401f17
 //@pinfile file=lrtable/src/lib/statetable.rs sha=d87829631c7b15fa
 //@pinfile file=lrpar/src/lib/ctbuilder.rs sha=63360841de4f2b64
 //@use prelude/tail.rs
